@@ -425,6 +425,15 @@ class Report:
         }
         with open(os.path.join(EVID, self.prop + ".json"), "w") as f:
             json.dump(ev, f, indent=1, sort_keys=True)
+        # the case and instance files of this run are scratch (regenerated by every run): do not let them pile up
+        if not self.violations:
+            import glob
+            for pat in ("cases_%s_*" % self.prop, "inst_%s_*" % self.prop, ".cases_%s_*" % self.prop, ".inst_%s_*" % self.prop):
+                for fp in glob.glob(os.path.join(GEN, pat)):
+                    try:
+                        os.unlink(fp)
+                    except OSError:
+                        pass
         for k in self.known:
             if k["id"] in self.known_hit:
                 print("KNOWN-FINDING: property=%s %s (%s; seen %d times in this run)" % (
